@@ -122,6 +122,24 @@ class FilterMapIt(It):
                 return r.fields[0]
 
 
+class MapWhileIt(It):
+    """Iterator::map_while: yields f(x) until f returns None, then stops for good"""
+    def __init__(self, inner, f):
+        self.inner, self.f, self.done = inner, f, False
+
+    def next(self, ctx):
+        if self.done:
+            return END
+        v = it_next(ctx, self.inner)
+        if v is END:
+            return END
+        r = deref(ctx.prog.call_value(ctx, self.f, [v]))
+        if r.variant == "Some":
+            return r.fields[0]
+        self.done = True
+        return END
+
+
 class EnumerateIt(It):
     def __init__(self, inner):
         self.inner, self.n = inner, 0
@@ -926,6 +944,24 @@ def install(P, max_split=4):
         r = deref(c.args[0])
         return Some(r.fields[0]) if r.variant == "Ok" else NONE
 
+    @P.summary("Result::transpose")
+    def _res_transpose(ctx, c):
+        """Result<Option<T>, E> -> Option<Result<T, E>>"""
+        r = deref(c.args[0])
+        if r.variant == "Err":
+            return Some(Err(r.fields[0]))
+        o = deref(r.fields[0])
+        return Some(Ok(o.fields[0])) if o.variant == "Some" else NONE
+
+    @P.summary("Option::transpose")
+    def _opt_transpose(ctx, c):
+        """Option<Result<T, E>> -> Result<Option<T>, E>"""
+        o = deref(c.args[0])
+        if o.variant == "None":
+            return Ok(NONE)
+        r = deref(o.fields[0])
+        return Ok(Some(r.fields[0])) if r.variant == "Ok" else Err(r.fields[0])
+
     @P.summary("Result::err")
     def _err(ctx, c):
         r = deref(c.args[0])
@@ -1549,6 +1585,10 @@ def install(P, max_split=4):
     @P.summary("Iterator::filter_map")
     def _filter_map(ctx, c):
         return FilterMapIt(to_iter(ctx, c.args[0], False), c.args[1])
+
+    @P.summary("Iterator::map_while")
+    def _map_while(ctx, c):
+        return MapWhileIt(to_iter(ctx, c.args[0], False), c.args[1])
 
     @P.summary("Iterator::enumerate")
     def _enumerate(ctx, c):
